@@ -168,7 +168,7 @@ func (c *Client) SubResource(subResource string) client.SubResourceClient {
 	return c.inner.SubResource(subResource)
 }
 
-func (c *Client) Scheme() *runtime.Scheme   { return c.inner.Scheme() }
+func (c *Client) Scheme() *runtime.Scheme     { return c.inner.Scheme() }
 func (c *Client) RESTMapper() meta.RESTMapper { return c.inner.RESTMapper() }
 
 type statusWriter struct{ c *Client }
